@@ -48,9 +48,9 @@ func rotateTables(db clickhouse.Conn, clusterName string, distributed bool, days
 	logger logger.ILogger, tables ...string) error {
 	var rotateTTLArr []string
 	for _, rp := range days {
-		intsevalSec := int32(rp.TTL.Seconds())
-		if intsevalSec < int32(minTTL.Seconds()) {
-			intsevalSec = int32(minTTL.Seconds())
+		intsevalSec := int64(rp.TTL / time.Second)
+		if intsevalSec < int64(minTTL/time.Second) {
+			intsevalSec = int64(minTTL / time.Second)
 		}
 		rotateTTL := fmt.Sprintf("%s + toIntervalSecond(%d)",
 			insertTimeExpression,
